@@ -200,6 +200,9 @@ def listed():
     add("diallenyl-ketone", [C, C, C, C, O, C, C, C], cross)
     add("3-methylenehepta-1,2,5,6-tetraene", [C] * 8, cross)
     add("bis-ketenyl-ketone", [O, C, C, C, O, C, C, O], cross)
+    # an odd number of unsaturated atoms that only the direct search can solve: 1,1-diallenyl-allene and its mono-vinyl analogue (even)
+    add("3,3-diallenyl-allene", [C] * 9, [(0, 1, 2), (1, 2, 2), (2, 3, 1), (3, 4, 2), (4, 5, 2), (2, 6, 1), (6, 7, 2), (7, 8, 2)])
+    add("allenyl-vinyl-allene", [C] * 8, [(0, 1, 2), (1, 2, 2), (2, 3, 1), (3, 4, 2), (2, 5, 1), (5, 6, 2), (6, 7, 2)])
     add("cyclopentadiene", [C] * 5, [(0, 1, 2), (1, 2, 1), (2, 3, 2), (3, 4, 1), (4, 0, 1)])
     add("anthracene", [C] * 14, [(0, 1, 2), (1, 2, 1), (2, 3, 2), (3, 4, 1), (4, 5, 2), (5, 0, 1), (4, 6, 1), (6, 7, 2), (7, 8, 1),
                                   (8, 9, 2), (9, 5, 1), (7, 10, 1), (10, 11, 2), (11, 12, 1), (12, 13, 2), (13, 8, 1)])
